@@ -14,13 +14,13 @@ RULE = (
     "skin-tone/flag/keycap shapes, prefixes and shared components, ASCII letters, names > 63 chars, 'g'+X next to X), file "
     "names in both schemes through the real write_glyphmap code, keep_glyph_names on/off, viewBox aspect 1:4..4:1, widths.  "
     "Oracle: mini-shaper(sequence) ends in one glyph whose recovered identity equals the source's; distinct sources -> distinct "
-    "glyphs; gid 0 is .notdef with an outline; U+0020 and every sequence-only codepoint map to blank glyphs; advance rule.  "
+    "glyphs; near-miss spellings of a source that are not sources (VS16 / ZWJ dropped or added, prefix, suffix, reversal) do not end on a source's glyph; gid 0 is .notdef with an outline; U+0020 and every sequence-only codepoint map to blank glyphs; advance rule.  "
     "Non-trivial = font with >= 1 multi-codepoint sequence; distinct = hash of (sequences, config)."
 )
 ASSUMPTIONS = ["identity is recovered with the COLR / SVG evaluators, outline bounds or stored PNG bytes", "mini-shaper implements cmap + ccmp ligature substitution only"]
 N = {"quick": 650, "thorough": 6500}
 ALL_FORMATS = ["glyf", "glyf_colr_0", "glyf_colr_1", "cff_colr_0", "cff_colr_1", "cff2_colr_0", "cff2_colr_1", "picosvg", "picosvgz", "untouchedsvg", "untouchedsvgz", "cbdt", "sbix"]
-ASPECTS = [(1, 4), (1, 2), (1, 1), (1, 1), (2, 1), (4, 1), (13, 10)]
+ASPECTS = [(1, 4), (1, 2), (1, 1), (1, 1), (2, 1), (4, 1), (13, 10), (9, 10), (3, 4)]
 
 
 def plan(tier, seed):
@@ -38,8 +38,22 @@ def gen_case(case):
     cfg["reuse_tolerance"] = r.choice([0.1, 0.1, -1])
     if fmt in ("cbdt", "sbix"):
         cfg["bitmap_resolution"] = r.choice([32, 64, 128, 100])
+    if r.random() < 0.35:
+        # a configured width below what tall-ish artwork needs (w < h, width < em*w/h) as well as above it
+        em = cfg["ascender"] - cfg["descender"]
+        cfg["width"] = int(em * r.choice([0.1, 0.3, 0.5, 0.7, 0.85]))
     n = r.randint(2, 14)
     seqs = svggen.sequences(r, n)
+    # qualified and unqualified spellings of one emoji as two distinct sources (follower above and below U+FE0F)
+    if r.random() < 0.3:
+        b = r.choice([0x261D, 0x270C, 0x1F3F3, r.randint(0x1F300, 0x1FAFF)])
+        tail = r.choice([(r.choice(svggen.SKIN),), (svggen.ZWJ, r.randint(0x1F300, 0x1FAFF)), (0x20E3,), (0x10FFF0,)])
+        pair = [(b, svggen.VS16) + tail, (b,) + tail]
+        if r.random() < 0.4:
+            pair = pair[:1] if r.random() < 0.5 else pair[1:]
+        for q in pair:
+            if q not in seqs:
+                seqs.append(q)
     # hostile: 'g' + X next to X (name collision candidates), a coloured glyph for a component of a sequence
     if r.random() < 0.25 and seqs:
         base = r.choice(seqs)
@@ -219,6 +233,26 @@ def run_case(case):
             ident = f"identity could not be read: {type(e).__name__}: {e}"
         if ident != "ok":
             res["violations"].append(dict(ctx, what="glyph reached from the codepoints does not carry this source's artwork: " + ident, glyph=name, sequence=list(q)))
+    # "... and only from them": near-miss spellings that are not sources must not end on a source's glyph
+    srcset = set(seqlist)
+    probes = set()
+    for q in seqlist:
+        if len(q) < 2:
+            continue
+        probes.add(tuple(cp for cp in q if cp != svggen.VS16))
+        probes.add(tuple(cp for cp in q if cp != svggen.ZWJ))
+        probes.add(q[:1] + (svggen.VS16,) + q[1:])
+        probes.add(q + (svggen.VS16,))
+        probes.add(q[:-1])
+        probes.add(q[1:])
+        probes.add(tuple(reversed(q)))
+    for p in sorted(probes):
+        if not p or p in srcset or any(cp not in cmap for cp in p):
+            continue
+        c["non_source_probes"] = c.get("non_source_probes", 0) + 1
+        got = rc.reach(font, p)
+        if len(got) == 1 and got[0] in reached_by:
+            res["violations"].append(dict(ctx, what="a sequence that is not a source reaches a source's glyph", probe=list(p), glyph=got[0], source=list(reached_by[got[0]])))
     for v in contracts.violations():
         res["violations"].append(v)
     c.update({k: v for k, v in contracts.counters().items() if k.startswith(("H6", "H8"))})
@@ -233,7 +267,7 @@ def run_case(case):
 def finish(agg):
     c = agg["counters"]
     inc = []
-    for k in ("multi_codepoint_sources", "sequence_only_codepoints"):
+    for k in ("multi_codepoint_sources", "sequence_only_codepoints", "non_source_probes"):
         if c.get(k, 0) == 0:
             inc.append(f"deciding monitor/branch never reached: {k}")
     for f in ALL_FORMATS:
